@@ -245,3 +245,39 @@ Proof.
   - replace (S r - 1)%nat with r by lia. replace (S (S r) - 1)%nat with (S r) by lia.
     apply adj_le_nth, H.
 Qed.
+
+(* ---- explicit rank columns: the cutoff is positional ---- *)
+Lemma first_k_ignores_rank_column_l : forall k (l : list (Z * Z)),
+  topk k (rl_ids l) = rl_ids (rl_first k l).
+Proof.
+  intros [n|] l; unfold topk, rl_ids, rl_first; cbn; [|reflexivity].
+  apply firstn_map.
+Qed.
+
+Lemma rank_cut_implicit_from : forall ids r n,
+  (1 <= r)%Z ->
+  rank_cut n (implicit_from r ids) = firstn (Z.to_nat (Z.of_nat n + 1 - r)) ids.
+Proof.
+  induction ids as [|x tl IH]; intros r n Hr.
+  - cbn. now rewrite firstn_nil.
+  - unfold rank_cut in *. cbn [implicit_from filter fst].
+    destruct (Z.leb_spec r (Z.of_nat n)).
+    + cbn [map snd]. rewrite IH by lia.
+      replace (Z.to_nat (Z.of_nat n + 1 - r)) with (S (Z.to_nat (Z.of_nat n + 1 - (r + 1)))) by lia.
+      reflexivity.
+    + replace (Z.to_nat (Z.of_nat n + 1 - r)) with 0%nat by lia. cbn [firstn].
+      specialize (IH (r + 1)%Z n ltac:(lia)).
+      replace (Z.to_nat (Z.of_nat n + 1 - (r + 1))) with 0%nat in IH by lia. exact IH.
+Qed.
+
+Lemma first_k_is_positional_l :
+  (forall k l, topk k (rl_ids l) = rl_ids (rl_first k l)) /\
+  (forall n ids, rank_cut n (implicit_from 1 ids) = topk (Some n) ids) /\
+  (let l := [(1, 11); (2, 12); (5, 13); (7, 14); (9, 15)]%Z in
+   rank_cut 4 l = [11; 12]%Z /\ topk (Some 4%nat) (rl_ids l) = [11; 12; 13; 14]%Z).
+Proof.
+  split; [exact first_k_ignores_rank_column_l|]. split.
+  - intros n ids. rewrite rank_cut_implicit_from by lia.
+    replace (Z.to_nat (Z.of_nat n + 1 - 1)) with n by lia. reflexivity.
+  - split; reflexivity.
+Qed.
